@@ -25,6 +25,8 @@ MC_POLICY = dict(coverage=False, name="MC_Policy", module="MC_Wal.tla", cfg="MC_
                  expect_actions=WAL_STEPS + ["CrashProcess", "CrashPower"], timeout=7000)
 MC_POLICY_FSYNC = dict(coverage=False, name="MC_Policy_fsync", module="MC_Wal.tla", cfg="MC_Policy_fsync_quick.cfg",
                        cfg_thorough="MC_Policy_fsync.cfg", expect_actions=WAL_STEPS + ["CrashProcess", "CrashPower"], timeout=7000)
+MC_DAMAGE = dict(coverage=False, name="MC_Damage", module="MC_Wal.tla", cfg="MC_Damage_quick.cfg", cfg_thorough="MC_Damage.cfg",
+                 expect_actions=WAL_STEPS + ["Restart", "Damage"], timeout=7000)
 MC_READER = dict(name="MC_Reader", module="Reader.tla", cfg="MC_Reader.cfg", expect_actions=["ReadFrame", "Header", "IntoWriter"])
 MC_FRAMES = dict(name="MC_Frames", module="MC_Frames.tla", cfg="MC_Frames_quick.cfg", cfg_thorough="MC_Frames_tiny.cfg")
 MC_FRAMES_REAL = dict(name="MC_Frames_real", module="MC_Frames.tla", cfg="MC_Frames_real.cfg")
@@ -147,7 +149,7 @@ RECIPES = {
     "C12": dict(
         level="model_checking",
         monitors={"C12"},
-        mc=[MC_CRASH],
+        mc=[MC_CRASH, MC_DAMAGE],
         runs=[dict(cmd="run", gen="batch:30,big:4,aim-batch:10", policy="always_flush",
                    opts={"crash": "process", "tears": "aimed", "cont": True, "max-points": "800"},
                    opts_thorough={"crash": "process", "tears": "all", "cont": True, "max-points": "8000"},
@@ -160,9 +162,9 @@ RECIPES = {
         nontrivial_stat="crash_incall_points",
     ),
     "C08": dict(
-        level="fault_enumeration",
+        level="model_checking",
         monitors={"C08"},
-        mc=[],
+        mc=[MC_DAMAGE],
         runs=[dict(cmd="damage", gen="small:20,batch:8,gc-heavy:6,big:3,names:3,aim-batch:10", policy="always_flush",
                    opts={"classes": "payload,crc,hdr,noise", "noise": "300"},
                    opts_thorough={"classes": "payload,crc,hdr,noise", "noise": "1500", "thorough": True}, thorough_factor=8),
@@ -174,9 +176,9 @@ RECIPES = {
         nontrivial_stat="damage_cases",
     ),
     "C09": dict(
-        level="fault_enumeration",
+        level="model_checking",
         monitors={"C09"},
-        mc=[],
+        mc=[MC_DAMAGE],
         runs=[dict(cmd="damage", gen="small:24,recreate:16,batch:8,gc-heavy:6,big:3,aim-batch:8", policy="always_flush",
                    opts={"classes": "payload,crc", "cont": True},
                    opts_thorough={"classes": "payload,crc", "cont": True, "thorough": True}, thorough_factor=10)],
